@@ -135,10 +135,52 @@ func mediaTypeSet(c *core.Ctx, fn string) (map[string]bool, token.Pos) {
 	}
 	set := map[string]bool{}
 	ast.Inspect(fd.Body, func(n ast.Node) bool {
-		if cc, ok := n.(*ast.CaseClause); ok {
-			for _, e := range cc.List {
+		switch x := n.(type) {
+		case *ast.CaseClause:
+			for _, e := range x.List {
 				if s, ok := constString(pk, e); ok {
 					set[s] = true
+				}
+			}
+		case *ast.BinaryExpr:
+			if x.Op != token.EQL {
+				return true
+			}
+			for _, pair := range [][2]ast.Expr{{x.X, x.Y}, {x.Y, x.X}} {
+				// mt == CONST
+				if s, ok := constString(pk, pair[1]); ok {
+					if _, isConst := constString(pk, pair[0]); !isConst {
+						set[s] = true
+					}
+				}
+				// table[mt] == KIND: the keys the package-level table (a literal, never changed) maps to that constant
+				ie, ok := pair[0].(*ast.IndexExpr)
+				if !ok {
+					continue
+				}
+				id, ok := ie.X.(*ast.Ident)
+				if !ok {
+					continue
+				}
+				v, ok := pk.TypesInfo.Uses[id].(*types.Var)
+				if !ok || v.Parent() != pk.Types.Scope() || pkgVarAssigned(pk, v) {
+					continue
+				}
+				want := constOf(pk, pair[1])
+				cl, isLit := pkgVarInit(pk, v.Name()).(*ast.CompositeLit)
+				if want == nil || !isLit {
+					continue
+				}
+				for _, el := range cl.Elts {
+					kv, ok := el.(*ast.KeyValueExpr)
+					if !ok {
+						continue
+					}
+					if val := constOf(pk, kv.Value); val != nil && val.Kind() == want.Kind() && constant.Compare(val, token.EQL, want) {
+						if s, ok := constString(pk, kv.Key); ok {
+							set[s] = true
+						}
+					}
 				}
 			}
 		}
@@ -455,9 +497,27 @@ func runReserved(c *core.Ctx) {
 									for _, le := range z.List {
 										collect(le, depth+1)
 									}
+								case *ast.IndexExpr:
+									collect(z.X, depth+1)
 								}
 								return true
 							})
+						}
+					}
+				}
+				// a package-level set or list of the store that is never reassigned: its literal's keys / elements
+				if id, ok := x.(*ast.Ident); ok {
+					if v, ok := sp.TypesInfo.Uses[id].(*types.Var); ok && v.Parent() == sp.Types.Scope() && !pkgVarAssigned(sp, v) {
+						if cl, ok := pkgVarInit(sp, v.Name()).(*ast.CompositeLit); ok {
+							for _, el := range cl.Elts {
+								k := el
+								if kv, ok := el.(*ast.KeyValueExpr); ok {
+									k = kv.Key
+								}
+								if s, ok := constString(sp, k); ok {
+									reserved[s] = true
+								}
+							}
 						}
 					}
 				}
@@ -469,6 +529,9 @@ func runReserved(c *core.Ctx) {
 			case *ast.IfStmt:
 				if mentionsRefusal(x.Body.List) {
 					collect(x.Cond, 0)
+					if x.Init != nil {
+						collect(x.Init, 0)
+					}
 				}
 			case *ast.CaseClause:
 				// switch el { case indexFile, layoutFile, blobsDir: refuse }
@@ -623,13 +686,44 @@ func parseSetDefaults(c *core.Ctx) *defaultsInfo {
 			}
 			return "zero"
 		}
+		depthLeft := 4
 		var walk func(stmts []ast.Stmt, guards []ast.Expr, top bool)
 		walk = func(stmts []ast.Stmt, guards []ast.Expr, top bool) {
 			for _, st := range stmts {
 				switch x := st.(type) {
 				case *ast.ExprStmt:
 					call, ok := x.X.(*ast.CallExpr)
-					if !ok || len(call.Args) != 2 {
+					if !ok {
+						continue
+					}
+					// the defaults of a sub-struct applied by a method of its type: c.API.setDefaults()
+					if se, isSel := call.Fun.(*ast.SelectorExpr); isSel && len(call.Args) == 0 && depthLeft > 0 {
+						if target := resolve(se.X); target != "" {
+							if tv, ok := pk.TypesInfo.Types[se.X]; ok {
+								t := tv.Type
+								if pt, ok := t.(*types.Pointer); ok {
+									t = pt.Elem()
+								}
+								if n, ok := t.(*types.Named); ok && n.Obj().Pkg() == pk.Types {
+									if md := findFunc(pk, n.Obj().Name(), se.Sel.Name); md != nil && md.Body != nil && md.Recv != nil && len(md.Recv.List) == 1 && len(md.Recv.List[0].Names) == 1 {
+										rn := md.Recv.List[0].Names[0].Name
+										old, had := alias[rn]
+										alias[rn] = target
+										depthLeft--
+										walk(md.Body.List, guards, top)
+										depthLeft++
+										if had {
+											alias[rn] = old
+										} else {
+											delete(alias, rn)
+										}
+										continue
+									}
+								}
+							}
+						}
+					}
+					if len(call.Args) != 2 {
 						continue
 					}
 					var fname string
@@ -913,6 +1007,9 @@ func runFlags(c *core.Ctx) {
 	flags := map[string]flagInfo{}
 	fieldToPaths := map[string][]string{}
 	// leaf: the value assigned to the configuration path p mentions these option fields
+	// recvAlias: inside a method of an options sub-struct that builds a part of the configuration, the receiver
+	// stands for the option path the method was called on (api ↦ opts.api)
+	recvAlias := map[string]string{}
 	leaf := func(fd *ast.FuncDecl, p string, value ast.Node) {
 		// leaf: every opts.<F> mentioned in the value; local variables are followed one step
 		var collect func(e ast.Node, depth int)
@@ -920,7 +1017,13 @@ func runFlags(c *core.Ctx) {
 			ast.Inspect(e, func(y ast.Node) bool {
 				switch z := y.(type) {
 				case *ast.SelectorExpr:
-					if sp := selPath(z); strings.HasPrefix(sp, "opts.") {
+					sp := selPath(z)
+					if i := strings.Index(sp, "."); i > 0 {
+						if full, ok := recvAlias[sp[:i]]; ok {
+							sp = full + sp[i:]
+						}
+					}
+					if strings.HasPrefix(sp, "opts.") {
 						fieldToPaths[dropRoot(sp)] = append(fieldToPaths[dropRoot(sp)], p)
 						return false
 					}
@@ -1039,6 +1142,30 @@ func runFlags(c *core.Ctx) {
 						if sub, ok := kv.Value.(*ast.CompositeLit); ok {
 							walk(sub, p)
 							continue
+						}
+						// a part of the configuration built by a method of an options sub-struct: API: opts.api.config()
+						if call, ok := kv.Value.(*ast.CallExpr); ok && len(call.Args) == 0 {
+							if se, ok := call.Fun.(*ast.SelectorExpr); ok {
+								if tv, ok := pk.TypesInfo.Types[se.X]; ok {
+									t := tv.Type
+									if pt, ok := t.(*types.Pointer); ok {
+										t = pt.Elem()
+									}
+									if n, ok := t.(*types.Named); ok && n.Obj().Pkg() == pk.Types {
+										if md := findFunc(pk, n.Obj().Name(), se.Sel.Name); md != nil && md.Body != nil && md.Recv != nil && len(md.Recv.List) == 1 && len(md.Recv.List[0].Names) == 1 && len(md.Body.List) == 1 {
+											if rs, ok := md.Body.List[0].(*ast.ReturnStmt); ok && len(rs.Results) == 1 {
+												if lit, ok := rs.Results[0].(*ast.CompositeLit); ok {
+													rn := md.Recv.List[0].Names[0].Name
+													recvAlias[rn] = selPath(se.X)
+													walk(lit, p)
+													delete(recvAlias, rn)
+													continue
+												}
+											}
+										}
+									}
+								}
+							}
 						}
 						// a local variable that was initialised with a composite literal (the sub-struct built beforehand)
 						if id, ok := kv.Value.(*ast.Ident); ok {
